@@ -147,6 +147,34 @@ theorem keepView_stepLeaf {keep : Id → Bool} {i : Id} (hk : keep i = true) (no
     keepView keep (stepLeaf now stock (.leaf i r s)).1 = (stepLeaf now stock (.leaf i r s)).1 :=
   keepView_all (fun e he => by rw [stepLeaf_ids now stock i r s e he]; exact hk)
 
+/-- a transparent group at the head of the unvisited deeds whose own pass leaves nothing: it finishes in this cycle -/
+theorem runCycle_group_done (pool gpool : List (Spec τ)) (now stock rg : τ) (sid i : Id) (doers : List Id)
+    (deeds un : List (RT τ)) (c : Cyc τ) (es1 : List (Ev τ)) (hrg : rg ≤ now) (hg : c.gone = [])
+    (hin : runCycle gpool now 0 i deeds { doers := doers } = (es1, [], { pr := [], doers := doers, gone := [] }, none)) :
+    runCycle pool now stock sid (.group i rg 0 false gpool doers deeds :: un) c =
+      ([ev i .recur now] ++ es1 ++ [ev i (.flag true) now] ++ [ev i .clean now, ev i .exit now, ev i .exitEnd now]
+          ++ [ev i (.flag true) now] ++ (runCycle pool now stock sid un c).1,
+       (runCycle pool now stock sid un c).2) := by
+  rw [runCycle.eq_def]
+  simp only [RT.id, hg, List.contains_nil, Bool.false_eq_true, if_false, RT.retyme, hrg, if_true]
+  rw [resumeGroup, hin]
+  simp
+
+/-- a transparent group whose own pass leaves `d :: ds`: it is re-queued, due again asap -/
+theorem runCycle_group_live (pool gpool : List (Spec τ)) (now stock rg : τ) (sid i : Id) (doers : List Id)
+    (deeds un : List (RT τ)) (c : Cyc τ) (es1 : List (Ev τ)) (d : RT τ) (ds : List (RT τ)) (hrg : rg ≤ now) (hg : c.gone = [])
+    (hin : runCycle gpool now 0 i deeds { doers := doers } = (es1, [], { pr := d :: ds, doers := doers, gone := [] }, none)) :
+    runCycle pool now stock sid (.group i rg 0 false gpool doers deeds :: un) c =
+      ([ev i .recur now] ++ es1 ++ [ev i (.flag false) now]
+          ++ (runCycle pool now stock sid un
+                { c with pr := c.pr ++ [.group i (nextDue now stock rg (some 0)) 0 false gpool doers (d :: ds)] }).1,
+       (runCycle pool now stock sid un
+                { c with pr := c.pr ++ [.group i (nextDue now stock rg (some 0)) 0 false gpool doers (d :: ds)] }).2) := by
+  rw [runCycle.eq_def]
+  simp only [RT.id, hg, List.contains_nil, Bool.false_eq_true, if_false, RT.retyme, hrg, if_true]
+  rw [resumeGroup, hin]
+  simp [RT.setRetyme]
+
 /-- one leaf, one cycle, nested (`stock`) against flat (`tock`): same events, related remainders -/
 theorem stepLeaf_sim {keep : Id → Bool} {tock : τ} (h0 : 0 ≤ tock) {now stock r r' : τ} {i : Id} {s : List (Step τ)}
     (hst : stock = tock ∨ stock = 0) (hk : keep i = true) (hp : plainSteps s = true) (hg : g04 s = true)
@@ -206,27 +234,35 @@ theorem Sim.cycle {keep : Id → Bool} {tock : τ} (h0 : 0 ≤ tock) {b : Bool} 
   | @group i rg gpool doers deeds N F1 F2 hk hrg hsolid hs1 hs2 ih1 ih2 =>
     intro pool stock sid c hst hgone
     obtain ⟨es1, N1, hrun1, hview1, hsim1⟩ := ih1 gpool 0 i { doers := doers } (Or.inr rfl) rfl
-    rw [runCycle.eq_def]
-    simp only [RT.id, hgone, List.contains_nil, Bool.false_eq_true, if_false, RT.retyme, hrg, if_true]
-    rw [resumeGroup, hrun1]
-    simp only [List.nil_append]
+    simp only [List.nil_append] at hrun1
     have hdueg : nextDue now stock rg (some 0) ≤ now + tock := by
       simp only [nextDue, asap_zero, if_true]
       rcases hst with e | e
       · rw [e]; exact LawfulTyme.le_refl _
       · rw [e, LawfulTyme.add_zero]; exact LawfulTyme.le_add now tock h0
+    have hgev : ∀ (k : Kind), keepView keep [ev i k now] = [] := fun k => by simp [keepView, ev, hk]
     cases hN1 : N1 with
     | nil =>
       subst hN1
       have hF1 : flatNext now tock F1 = [] := hsim1.nil_left
       obtain ⟨es2, N2, hrun2, hview2, hsim2⟩ := ih2 pool stock sid c hst hgone
-      refine ⟨_, N2, ?_, ?_, ?_⟩
-      · simp [hrun2]
-        rfl
-      · sorry
+      refine ⟨[ev i .recur now] ++ es1 ++ [ev i (.flag true) now] ++ [ev i .clean now, ev i .exit now, ev i .exitEnd now]
+          ++ [ev i (.flag true) now] ++ es2, N2, ?_, ?_, ?_⟩
+      · rw [runCycle_group_done pool gpool now stock rg sid i doers deeds N c es1 hrg hgone hrun1, hrun2]
+      · simp only [keepView_append, hgev, hview1, hview2, flatEvs_append, List.nil_append, List.append_nil]
+        simp [keepView, ev, hk]
       · rw [flatNext_append, hF1]; simpa using hsim2
     | cons d ds =>
-      sorry
+      subst hN1
+      obtain ⟨es2, N2, hrun2, hview2, hsim2⟩ :=
+        ih2 pool stock sid { c with pr := c.pr ++ [.group i (nextDue now stock rg (some 0)) 0 false gpool doers (d :: ds)] } hst hgone
+      refine ⟨[ev i .recur now] ++ es1 ++ [ev i (.flag false) now] ++ es2,
+        .group i (nextDue now stock rg (some 0)) 0 false gpool doers (d :: ds) :: N2, ?_, ?_, ?_⟩
+      · rw [runCycle_group_live pool gpool now stock rg sid i doers deeds N c es1 d ds hrg hgone hrun1, hrun2]
+        simp [List.append_assoc]
+      · simp only [keepView_append, hgev, hview1, hview2, flatEvs_append, List.nil_append, List.append_nil]
+      · rw [flatNext_append]
+        exact Sim.group hk hdueg (fun _ => hsim1.ne_nil (by simp)) hsim1 hsim2
 
 end laws
 end Hio.Sched
